@@ -22,6 +22,8 @@ const (
 
 type stagedProp interface {
 	CommitStaged()
+	DiscardStaged()
+	NotifyCommitted()
 }
 
 type StagedConfigProp interface {
@@ -56,10 +58,10 @@ func setPropsFromMapRecursive(val reflect.Value, updates map[string]any) (staged
 				// If the value is a map, it's a nested update
 				if nestedUpdates, ok := value.(map[string]any); ok {
 					nestedStaged, err := setPropsFromMapRecursive(fieldVal.Addr(), nestedUpdates)
-					if err != nil {
-						return nil, err
-					}
 					stagedProps = append(stagedProps, nestedStaged...)
+					if err != nil {
+						return stagedProps, err
+					}
 					break
 				}
 
@@ -69,11 +71,11 @@ func setPropsFromMapRecursive(val reflect.Value, updates map[string]any) (staged
 					if prop, ok := fieldAddr.Interface().(StagedConfigProp); ok {
 						valueBytes, err := json.Marshal(value)
 						if err != nil {
-							return nil, err
+							return stagedProps, err
 						}
 
 						if err := prop.UnmarshalJSONStaged(valueBytes); err != nil {
-							return nil, err
+							return stagedProps, err
 						}
 
 						stagedProps = append(stagedProps, prop)
@@ -95,6 +97,33 @@ func setPropsFromMap(cfg *Config, updates map[string]any) (stagedProps []stagedP
 	return setPropsFromMapRecursive(reflect.ValueOf(cfg), updates)
 }
 
+// Builds the configuration that would result from applying updates to cfg, without touching cfg.
+// It holds the values that go to the configuration file (command-line overrides are not part of it).
+func candidateWith(cfg *Config, updates map[string]any) (*Config, error) {
+	current, err := json.Marshal(cfg)
+	if err != nil {
+		return nil, err
+	}
+
+	var candidate Config
+	if err := json.Unmarshal(current, &candidate); err != nil {
+		return nil, err
+	}
+
+	stagedProps, err := setPropsFromMapRecursive(reflect.ValueOf(&candidate), updates)
+	if err != nil {
+		return nil, err
+	}
+	for _, prop := range stagedProps {
+		prop.CommitStaged()
+	}
+
+	if err := candidate.verify(); err != nil {
+		return nil, err
+	}
+	return &candidate, nil
+}
+
 func UpdatePartialFromConfig(cfg *Config, updates map[string]any) (UpdateStatus, error) {
 	slog.Info("Updating config with partial JSON", "updates", updates)
 
@@ -103,9 +132,28 @@ func UpdatePartialFromConfig(cfg *Config, updates map[string]any) (UpdateStatus,
 		return UpdateStatusFailed, nil
 	}
 
+	// Check the update on a copy first: an ill-typed or invalid value, or a combination that does not
+	// verify, must leave the running configuration, its listeners and the file exactly as they are.
+	slog.Debug("Checking updated config...", "updates", updates)
+	candidate, err := candidateWith(cfg, updates)
+	if err != nil {
+		slog.Error("Updated config was rejected", "error", err)
+		return UpdateStatusFailed, fmt.Errorf("%w: %v", ErrUpdateFailed, err)
+	}
+
+	// Write the new configuration to disk before it goes live, so that a failing write changes nothing.
+	if err := candidate.persist(); err != nil {
+		slog.Error("Failed to persist updated config", "error", err)
+		return UpdateStatusFailed, fmt.Errorf("%w: %v", ErrUpdateFailed, err)
+	}
+
 	slog.Debug("Setting properties from JSON map...", "updates", updates)
 	stagedProps, err := setPropsFromMapRecursive(reflect.ValueOf(cfg), updates)
 	if err != nil {
+		// Cannot normally happen, since the same document was just applied to the copy.
+		for _, prop := range stagedProps {
+			prop.DiscardStaged()
+		}
 		slog.Error("Failed to set properties from map", "error", err)
 		return UpdateStatusFailed, fmt.Errorf("%w: %v", ErrUpdateFailed, err)
 	}
@@ -116,14 +164,9 @@ func UpdatePartialFromConfig(cfg *Config, updates map[string]any) (UpdateStatus,
 		prop.CommitStaged()
 	}
 
-	if err := cfg.verify(); err != nil {
-		slog.Error("Updated config failed verification", "error", err)
-		return UpdateStatusFailed, fmt.Errorf("%w: %v", ErrUpdateFailed, err)
-	}
-
-	if err := cfg.persist(); err != nil {
-		slog.Error("Failed to persist updated config", "error", err)
-		return UpdateStatusFailed, fmt.Errorf("%w: %v", ErrUpdateFailed, err)
+	// Listeners only ever hear about accepted values.
+	for _, prop := range stagedProps {
+		prop.NotifyCommitted()
 	}
 
 	status := UpdateStatusSuccess
